@@ -19,8 +19,17 @@ impl TemplateLibrary {
         let mut templates = HashMap::new();
 
         let mut elem_id = 0;
+        // Visit files in a fixed order and keep the first definition of each
+        // name (as `ProgramArchive` does), so that the result does not depend
+        // on the iteration order of the hash map.
+        let mut library_contents: Vec<_> = library_contents.into_iter().collect();
+        library_contents.sort_by_key(|(file_id, _)| *file_id);
         for (file_id, file_contents) in library_contents {
             for definition in file_contents {
+                let name = definition.name();
+                if functions.contains_key(&name) || templates.contains_key(&name) {
+                    continue;
+                }
                 match definition {
                     Definition::Function { name, args, arg_location, body, .. } => {
                         functions.insert(
